@@ -16,6 +16,60 @@ CHECKS = {
         note='Trusts: the LAPACK QR contract (validated numerically each run), z3, the symx engine (validated Serval-style by pushing '
              'concrete inputs through the shimmed path and plain NumPy), exact-real idealisation of floating point. Outside: shapes > bound, dtype promotion, rounding.',
         design='6 C11'),
+    'C01': dict(
+        text='The real orthonormalize sweeps (MPS and MPO, both modes) are executed symbolically from an arbitrary block-sparse object with '
+             'symbolic integer charges and symbolic entries for L<=3; on every feasible path (charge pattern x sign of the trailing R entry) '
+             'factor>=0, factor*dense(new)=dense(old), isometry of every tensor, block sparsity under the new bond charges, bond-dimension bounds '
+             'and boundary charges are proved modulo the LAPACK QR contract by SMT. All charges/entries within the shape bound, not samples.',
+        note='Trusts the QR contract (validated numerically each run), z3, the symx engine (concrete-mode cross-validation), exact-real arithmetic. '
+             'Outside: L>3, D>3, dtype promotion, rounding; factor^2 = sum|psi|^2 only via reconstruction + isometry.',
+        design='6 C01'),
+    'C03': dict(
+        text='add/sub/compose/apply/identity/dense conversion run on symbolic tensors (all independent bond profiles D<=2, L<=3, real and complex); '
+             'dense(result) is compared with the dense expression of the operands as polynomial identities decided by SMT for all entry values; '
+             'symbolic charges enumerate every sparsity layout at L<=2; from_vector(tol=0) and split+merge hold modulo the SVD contract.',
+        note='Trusts SVD/norm contracts, z3, engine. Outside: as_matrix(sparse_format=True) (SciPy sparse cannot hold symbols: dense=sparse sub-claim NOT decided), '
+             'd>2, D>2, L>3, dtype promotion, rounding.',
+        design='6 C03'),
+    'C04': dict(
+        text='Everything in operation.py runs on symbolic complex tensors; vdot, norm, operator averages, traces, and the projection identity '
+             '<B|H_loc A> = <Psi(B)|H|Psi(A)> for every site, two-site and zero-site variant are decided as polynomial identities by SMT (L<=3, D<=2, '
+             'bra/ket/operator profiles independent). Entries universally quantified => every block-sparse instance covered.',
+        note='Trusts sqrt contract for norm(), z3, engine. Hermiticity premise imposed structurally on the MPO tensors. Outside: L>3, D>2, d>2, rounding.',
+        design='6 C04'),
+    'C05': dict(
+        text='from_opchains/from_opgraph run with symbolic coefficients and symbolic interleaved charges over ALL chain-list skeletons in the bound '
+             '(L<=3, <=3 chains, ids incl. identity inside chains, duplicates, all orders); zero / cancelling / accumulate-to-one coefficient cases are paths; '
+             'the word-coefficient identities (free algebra) and the MPO matrix identity under a symbolic operator map are decided by SMT per path.',
+        note='Trusts z3, engine, the word-semantics oracle (refs/words.py). OpHalfchain.__hash__ is made constant by the shim (lookups decide by __eq__). '
+             'Outside: L>3 (4 thorough), >3 chains, operator maps other than 2x2 real.',
+        design='6 C05'),
+    'C06': dict(
+        text='All six public lattice-Hamiltonian constructors run end to end with symbolic real (complex) parameters for L=1..4 (d=2), 1..3 (spin-1, Bose d<=3, '
+             'Fermi-Hubbard); every zero/non-zero coupling pattern is a path; dense matrix vs textbook formula, Hermiticity and charge conservation are decided '
+             'for all parameter values by SMT.',
+        note='Trusts the textbook oracle refs/models.py (written from docstrings, validated numerically against the unchanged tree each run), z3, engine. '
+             'Irrational local operators enter as the IEEE doubles the code uses. Outside: larger L/d.',
+        design='6 C06'),
+    'C16': dict(
+        text='simplify / merge_edges / rename_node_id / rename_edge_id / add / flip run from arbitrary consistent layered graphs generated inside the exploration '
+             '(parallel and multi-operator edges, symbolic coefficients and node charges, colliding and fully symbolic ids for add); operator preservation '
+             '(word polynomials), consistency, monotone size and non-interference with the other graph are decided per path by SMT. One inductive step per rewrite.',
+        note='Trusts z3, engine, word-semantics oracle. Outside: graphs beyond width 2 (3 thorough) / 3 layers; rewrite sequences only inside the bound (seq2 cross-check thorough).',
+        design='6 C16'),
+    'C17': dict(
+        text='from_optrees and from_automaton run over tree / automaton skeletons generated inside the exploration with symbolic coefficients, node charges, '
+             'site-dependent active/opics callables; result graphs vs sum over root-to-leaf paths resp. DP over automaton paths; as_matrix of chains, trees, graphs '
+             'vs word semantics under a symbolic operator map; all decided by SMT per path.',
+        note='Trusts z3, engine, oracles. Tree nodes coinciding with terminal nodes carry charge 0 (else RuntimeError by design). Outside: larger trees/automata/L.',
+        design='6 C17'),
+    'C18': dict(
+        category='exploration',
+        text='Exhaustive within bound: every bipartite graph up to 4x4 (all edge sets) and every ordered edge list with duplicates up to length 4 over 3x3 is a path; '
+             'the Koenig certificate (valid matching, valid cover, |cover|=|matching|) is checked on each. The solver only decides the 0/1 adjacency branches.',
+        note='Symbolic execution degenerates to enumeration here (every input bit is branched on); stated as exploration. Outside: 5x5 exhaustive, random 60x60 sampling.',
+        design='6 C18',
+        technique='re-execution DFS over symbolic 0/1 adjacency bits (z3 QF_LIA feasibility), exhaustive within the size bound; concrete Koenig certificate per path'),
 }
 
 NOT_APPLICABLE = {
